@@ -37,7 +37,7 @@ def frame_cursor(evs):
 
 
 def print_dropped(evs):
-    """one non-blank print command of the last frame is removed from the byte stream"""
+    """the last glyph sent before the last frame end is another one than the application recorded"""
     j = _last(evs, lambda e: e.get("ev") == "frame")
     if j is None:
         return None
@@ -45,9 +45,10 @@ def print_dropped(evs):
         e = evs[i]
         if e.get("ev") == "frame":
             break
-        if e.get("ev") == "print" and e.get("w", 0) >= 1 and i + 1 < j and evs[i + 1].get("ev") == "print":
-            # the next print then lands one cell to the left
-            del evs[i]
+        if e.get("ev") in ("ed2", "resize", "scramble"):
+            return None          # something after it may wipe the cell
+        if e.get("ev") == "print" and e.get("w", 0) >= 1:
+            e["g"] = 987654
             return evs
     return None
 
